@@ -542,13 +542,23 @@ def c13(tier):
     bindir = common.build_redo()
     d = common.workdir('C13_' + tier)
     cov, tool = funcheck.candidates_part(tier, d, verdict, exe, bindir)
+    # the history part: a higher-priority script appears / the chosen one goes away, also inside a directory that the
+    # target's own script makes (RedoSys programs, replayed)
+    v2, hcov, hte, hwall = syscheck.run_family(
+        'C13', tier, fam(['do_recreate', 'autodir', 'subdirs']), ['Fresh', 'NoUnderBuild', 'RecordedDepsCover'], ['NoOverBuild'],
+        None, bounds(tier, (4, 3), (6, 4)), sample_n=None if tier == 'thorough' else 60, verdict=verdict, subdir='hist',
+        required_actions=['DoAdd', 'DoRemove'])
+    tool += hte
+    cov['history_states'] = hcov['states']
+    cov['history_behaviours_replayed'] = hcov['behaviours_replayed']
+    cov['states'] = cov.get('states', 0) + hcov['states']
     # how the chosen script is executed: the first-line (interpreter) rule, RedoExec
     ecov, etool = funcheck.exec_part(tier, d, verdict, bindir)
     cov.update(ecov)
     cov['states'] = cov.get('states', 0) + ecov.get('exec_states', 0)
     tool += etool
     cov['traces_validated_against_impl'] = cov.get('dofiles_compared', 0) + cov.get('whichdo_and_builds', 0) + \
-        ecov.get('exec_real_builds', 0)
+        ecov.get('exec_real_builds', 0) + hcov['behaviours_replayed']
     cov['exhaustive'] = True
     cov['note'] = ('TLC: the candidate list, script directory, $1 and $2 of every target (directory depth 0..n over {d, e.f}, every '
                    'file name over {a,.} up to the bound) with the order laws (specific rule first, a directory exhausted before its '
